@@ -130,6 +130,43 @@ def run(tier, seed):
         a.sig = P.sign(msg)
         pol = impl.AuthPolicy(pol0.challenge, pol0.rp_id, pol0.origin, cbor2.dumps(off), pol0.count, False)
         B.run_case(pol, a, "record", "reject", f"{P.pk.curve.name} point not on the curve (y^1) after a verification under (x, y)")
+    # other spellings of a key member (a CBOR bool carrying the sign of y as in RFC 9053 point compression, the integer value instead of the byte string,
+    # a bignum, text, a SEC1 blob): IF such a key is decoded at all it is the key it declares - never its mirror image or another point
+    def alt_forms(val, is_y=False, x=None):
+        iv = int.from_bytes(val, "big")
+        forms = [("integer", iv), ("bignum", cbor2.CBORTag(2, val)), ("hex text", val.hex()), ("array of bytes", list(val)), ("reversed bytes", val[::-1]), ("base64url text", authsim.b64u(val))]
+        if is_y:
+            forms += [("bool sign bit", bool(iv & 1)), ("int sign bit", iv & 1), ("SEC1 prefix byte", bytes([2 + (iv & 1)])), ("compressed point", bytes([2 + (iv & 1)]) + x)]
+        return forms
+    for kind in ("ES256-P256", "ES256-P384", "ES512-P521"):
+        P = authsim.Cred(kind, slot=3)
+        d = P.sk.private_numbers().private_value
+        N = authsim.Cred(kind, sk=ec.derive_private_key(ORDER[P.pk.curve.name] - d, P.pk.curve))
+        s = authcat.Scn(kind)
+        pol0, a = s.build()
+        msg = a.ad + hashlib.sha256(a.cdj).digest()
+        for decl, other in ((P, N), (N, P)):          # both parities of y
+            for member in (-2, -3):
+                for what, v in alt_forms(decl.cose[member], is_y=(member == -3), x=decl.cose[-2]):
+                    m = dict(decl.cose)
+                    m[member] = v
+                    try:
+                        cb = cbor2.dumps(m)
+                    except Exception:
+                        continue
+                    chk.evals += 1
+                    try:
+                        got = decoded_public_key_to_cryptography(decode_credential_public_key(cb))
+                        gn = got.public_numbers()
+                        if (gn.x, gn.y) != (decl.pk.public_numbers().x, decl.pk.public_numbers().y):
+                            chk.violation(f"a COSE key whose member {member} is given as {what} decodes to another point than the one it declares ({decl.pk.curve.name})", f"decode-alt-form {member} {what}",
+                                          {"entry": "decode_credential_public_key", "cose": cb.hex(), "declared_x": hex(decl.pk.public_numbers().x), "declared_y": hex(decl.pk.public_numbers().y), "decoded_x": hex(gn.x), "decoded_y": hex(gn.y)})
+                    except Exception:
+                        pass
+                    # whoever holds the OTHER private key (n - d) must not be able to authenticate against it
+                    a.sig = other.sign(msg)
+                    B.run_case(impl.AuthPolicy(pol0.challenge, pol0.rp_id, pol0.origin, cb, pol0.count, False), a, "record", "reject", f"{decl.pk.curve.name} member {member} as {what}: signed by the negated key")
+                    chk.seen(("alt-form", kind, member, what))
     for slot in range(2):
         c = authsim.Cred("RS256", slot=slot)
         m = c.cose_map()
